@@ -91,6 +91,9 @@ Section LoopLemmas.
 Variable nt : list tt -> res (option ty).
 Hypothesis nt_empty : nt [] = Ok (Some unnamed) [].
 
+(* a type of the grammar never starts like a const argument *)
+Lemma garg_lex a R : garg nt (lex a ++ R) = nt (lex a ++ R).
+Proof. destruct a as [s0 segs args|[a0|] t|l tr|t [[n|s]|]|a0|]; reflexivity. Qed.
 Lemma gen_loop_ok (args: list g) : forall k acc rest,
   Forall (fun a => forall R, stop R -> nt (lex a ++ R) = Ok (Some (embed a)) R) args ->
   List.length args < k ->
@@ -99,7 +102,7 @@ Proof.
   induction args as [|a args IH]; intros k acc rest Hall Hk; (destruct k; [cbn in Hk; lia|]).
   - cbn. rewrite app_nil_r. reflexivity.
   - inversion Hall as [|? ? Ha Hr]; subst. cbn [flat_map app gen_loop]. rewrite <- app_assoc.
-    rewrite Ha; [|destruct args; cbn; exact I]. cbn [expect bind]. rewrite IH; [|exact Hr|cbn in Hk; lia].
+    rewrite garg_lex. rewrite Ha; [|destruct args; cbn; exact I]. cbn [expect bind]. rewrite IH; [|exact Hr|cbn in Hk; lia].
     rewrite <- app_assoc. reflexivity.
 Qed.
 
@@ -160,7 +163,7 @@ Proof.
     assert (Hd': maxdepth (a :: r) < S f) by lia.
     pose proof (args_ready (S f) (a :: r) Hd' Hall) as Rdy. inversion Rdy as [|? ? Ha Hr]; subst.
     rewrite flat_map_concat_map, map_map, <- flat_map_concat_map.
-    rewrite Ha; [|destruct r; cbn; exact I]. cbn [expect bind].
+    rewrite garg_lex. rewrite Ha; [|destruct r; cbn; exact I]. cbn [expect bind].
     rewrite (gen_loop_ok (next_type (S f)) r); [|exact Hr|rewrite app_length; pose proof (length_flat_comma r); lia].
     cbn [bind app map]. reflexivity.
 Qed.
